@@ -115,3 +115,263 @@ package isobmff
 //@   props C01
 //@   requires len(buf) >= 4
 //@   modifies b.flags
+
+// ---- readers of individual boxes: each stays inside its box chain (remaining lengths never go negative, the stream
+// only moves forward) and writes nothing but the reader's bookkeeping; loops over child boxes terminate because every
+// accepted child header charges the parent at least 8 bytes.
+
+//@ func (*box).adjust
+//@   props C01 C02
+//@   requires wf4(b)
+//@   modifies b.remain, b.outer.remain, b.outer.outer.remain, b.outer.outer.outer.remain, b.outer.outer.outer.outer.remain, b.reader.offset
+//@   ensures remOK(b) && pos(b.reader.br) >= old(pos(b.reader.br))
+//@   requires n >= 0
+//@   decreases clen4(b)
+
+
+//@ func (*box).Read
+//@   props C01 C02 C11
+//@   requires wf4(b)
+//@   modifies stream(b.reader.br), b.remain, b.outer.remain, b.outer.outer.remain, b.outer.outer.outer.remain, b.outer.outer.outer.outer.remain, b.reader.offset, mem(p)
+//@   ensures remOK(b) && pos(b.reader.br) >= old(pos(b.reader.br))
+//@   ensures 0 <= n && n <= len(p) || n == 0
+
+
+//@ func parseFileTypeBox
+//@   props C01 C02 C11
+//@   requires wf4(b)
+//@   modifies stream(b.reader.br), b.remain, b.outer.remain, b.outer.outer.remain, b.outer.outer.outer.remain, b.outer.outer.outer.outer.remain, b.reader.offset
+//@   ensures remOK(b) && pos(b.reader.br) >= old(pos(b.reader.br))
+
+
+//@ func readCNCVBox
+//@   props C01 C02 C11
+//@   requires wf4(b)
+//@   modifies stream(b.reader.br), b.remain, b.outer.remain, b.outer.outer.remain, b.outer.outer.outer.remain, b.outer.outer.outer.outer.remain, b.reader.offset
+//@   ensures remOK(b) && pos(b.reader.br) >= old(pos(b.reader.br))
+
+
+//@ func readCTBOBox
+//@   props C01 C02 C11
+//@   requires wf4(b)
+//@   modifies stream(b.reader.br), b.remain, b.outer.remain, b.outer.outer.remain, b.outer.outer.outer.remain, b.outer.outer.outer.outer.remain, b.reader.offset
+//@   ensures remOK(b) && pos(b.reader.br) >= old(pos(b.reader.br))
+
+
+//@ func readCrxTrakBox
+//@   props C01 C02 C11
+//@   requires wf4(b)
+//@   modifies stream(b.reader.br), b.remain, b.outer.remain, b.outer.outer.remain, b.outer.outer.outer.remain, b.outer.outer.outer.outer.remain, b.reader.offset
+//@   ensures remOK(b) && pos(b.reader.br) >= old(pos(b.reader.br))
+
+
+//@ func readPitm
+//@   props C01 C02 C11
+//@   requires wf4(b)
+//@   modifies stream(b.reader.br), b.remain, b.outer.remain, b.outer.outer.remain, b.outer.outer.outer.remain, b.outer.outer.outer.outer.remain, b.reader.offset, b.flags
+//@   ensures remOK(b) && pos(b.reader.br) >= old(pos(b.reader.br))
+
+
+//@ func readIdat
+//@   props C01 C02 C11
+//@   requires wf4(b)
+//@   modifies stream(b.reader.br), b.remain, b.outer.remain, b.outer.outer.remain, b.outer.outer.outer.remain, b.outer.outer.outer.outer.remain, b.reader.offset
+//@   ensures remOK(b) && pos(b.reader.br) >= old(pos(b.reader.br))
+
+
+//@ func readHdlr
+//@   props C01 C02 C11
+//@   requires wf4(b)
+//@   modifies stream(b.reader.br), b.remain, b.outer.remain, b.outer.outer.remain, b.outer.outer.outer.remain, b.outer.outer.outer.outer.remain, b.reader.offset, b.flags
+//@   ensures remOK(b) && pos(b.reader.br) >= old(pos(b.reader.br))
+
+
+//@ func readIpma
+//@   props C01 C02 C11
+//@   requires wf4(b)
+//@   modifies stream(b.reader.br), b.remain, b.outer.remain, b.outer.outer.remain, b.outer.outer.outer.remain, b.outer.outer.outer.outer.remain, b.reader.offset, b.flags
+//@   ensures remOK(b) && pos(b.reader.br) >= old(pos(b.reader.br))
+
+
+//@ func readIpco
+//@   props C01 C02 C11
+//@   requires wf4(b)
+//@   modifies stream(b.reader.br), b.remain, b.outer.remain, b.outer.outer.remain, b.outer.outer.outer.remain, b.outer.outer.outer.outer.remain, b.reader.offset
+//@   ensures remOK(b) && pos(b.reader.br) >= old(pos(b.reader.br))
+
+
+//@ func readIlocHeader
+//@   props C01 C02 C11
+//@   requires wf4(b)
+//@   modifies stream(b.reader.br), b.remain, b.outer.remain, b.outer.outer.remain, b.outer.outer.outer.remain, b.outer.outer.outer.outer.remain, b.reader.offset, b.flags
+//@   ensures remOK(b) && pos(b.reader.br) >= old(pos(b.reader.br))
+
+
+//@ func (*Reader).readIloc
+//@   props C01 C02 C11
+//@   requires wf4(b)
+//@   modifies stream(b.reader.br), b.remain, b.outer.remain, b.outer.outer.remain, b.outer.outer.outer.remain, b.outer.outer.outer.outer.remain, b.reader.offset, b.flags, r.heic
+//@   ensures remOK(b) && pos(b.reader.br) >= old(pos(b.reader.br))
+//@   loop 0 invariant 0 <= i
+//@   loop 0 decreases len(buf) - i
+//@   loop 1 decreases int(ent.count) - j
+
+
+//@ func (*Reader).readInfe
+//@   props C01 C02 C11
+//@   requires wf4(b)
+//@   modifies stream(b.reader.br), b.remain, b.outer.remain, b.outer.outer.remain, b.outer.outer.outer.remain, b.outer.outer.outer.outer.remain, b.reader.offset, r.heic
+//@   ensures remOK(b) && pos(b.reader.br) >= old(pos(b.reader.br))
+//@   loop 0 invariant 0 <= i
+//@   loop 0 decreases len(buf) - i
+
+
+//@ func (*Reader).readIinf
+//@   props C01 C02 C11
+//@   requires wf4(b)
+//@   modifies stream(b.reader.br), b.remain, b.outer.remain, b.outer.outer.remain, b.outer.outer.outer.remain, b.outer.outer.outer.outer.remain, b.reader.offset, b.flags, r.heic
+//@   ensures remOK(b) && pos(b.reader.br) >= old(pos(b.reader.br))
+
+
+//@ func readExifHeader
+//@   props C01 C02 C11
+//@   requires wf4(b)
+//@   modifies stream(b.reader.br), b.remain, b.outer.remain, b.outer.outer.remain, b.outer.outer.outer.remain, b.outer.outer.outer.outer.remain, b.reader.offset
+//@   ensures remOK(b) && pos(b.reader.br) >= old(pos(b.reader.br))
+
+
+//@ func parsePreviewBox
+//@   props C01 C02 C11
+//@   requires wf4(b)
+//@   modifies stream(b.reader.br), b.remain, b.outer.remain, b.outer.outer.remain, b.outer.outer.outer.remain, b.outer.outer.outer.outer.remain, b.reader.offset
+//@   ensures remOK(b) && pos(b.reader.br) >= old(pos(b.reader.br))
+
+
+//@ func readIprp
+//@   props C01 C02 C11
+//@   requires wf2(b)
+//@   modifies stream(b.reader.br), b.remain, b.outer.remain, b.outer.outer.remain, b.outer.outer.outer.remain, b.outer.outer.outer.outer.remain, b.reader.offset, box.flags
+//@   ensures remOK(b) && pos(b.reader.br) >= old(pos(b.reader.br))
+//@   loop 0 invariant remOK(b) && pos(b.reader.br) >= old(pos(b.reader.br))
+//@   loop 0 decreases b.remain
+
+
+//@ func readIref
+//@   props C01 C02 C11
+//@   requires wf2(b)
+//@   modifies stream(b.reader.br), b.remain, b.outer.remain, b.outer.outer.remain, b.outer.outer.outer.remain, b.outer.outer.outer.outer.remain, b.reader.offset, b.flags
+//@   ensures remOK(b) && pos(b.reader.br) >= old(pos(b.reader.br))
+//@   loop 0 invariant remOK(b) && pos(b.reader.br) >= old(pos(b.reader.br))
+//@   loop 0 decreases b.remain
+
+
+//@ func readCMTBox
+//@   props C01 C02 C11
+//@   requires wf3(b)
+//@   modifies stream(b.reader.br), b.remain, b.outer.remain, b.outer.outer.remain, b.outer.outer.outer.remain, b.outer.outer.outer.outer.remain, b.reader.offset
+//@   ensures remOK(b) && pos(b.reader.br) >= old(pos(b.reader.br))
+
+
+//@ func readCrxMoovBox
+//@   props C01 C02 C11
+//@   requires wf2(b)
+//@   modifies stream(b.reader.br), b.remain, b.outer.remain, b.outer.outer.remain, b.outer.outer.outer.remain, b.outer.outer.outer.outer.remain, b.reader.offset
+//@   ensures remOK(b) && pos(b.reader.br) >= old(pos(b.reader.br))
+//@   loop 0 invariant remOK(b) && pos(b.reader.br) >= old(pos(b.reader.br))
+//@   loop 0 decreases b.remain
+
+
+//@ func (*Reader).createPRVWBox
+//@   props C01 C02 C11
+//@   requires wf2(b)
+//@   modifies stream(b.reader.br), b.remain, b.outer.remain, b.outer.outer.remain, b.outer.outer.outer.remain, b.outer.outer.outer.outer.remain, b.reader.offset
+//@   ensures remOK(b) && pos(b.reader.br) >= old(pos(b.reader.br))
+//@   ensures err == nil ==> inner.outer == b && inner.reader == b.reader && inner.remain >= 0
+
+
+//@ func (*Reader).readPreview
+//@   props C01 C02 C11
+//@   requires wf2(b)
+//@   modifies stream(b.reader.br), b.remain, b.outer.remain, b.outer.outer.remain, b.outer.outer.outer.remain, b.outer.outer.outer.outer.remain, b.reader.offset, r.prvw
+//@   ensures remOK(b) && pos(b.reader.br) >= old(pos(b.reader.br))
+
+
+//@ func (*Reader).readUUIDBox
+//@   props C01 C02 C11
+//@   requires wf2(b)
+//@   modifies stream(b.reader.br), b.remain, b.outer.remain, b.outer.outer.remain, b.outer.outer.outer.remain, b.outer.outer.outer.outer.remain, b.reader.offset, r.prvw
+//@   ensures remOK(b) && pos(b.reader.br) >= old(pos(b.reader.br))
+
+
+//@ func (*Reader).readMeta
+//@   props C01 C02 C11
+//@   requires wf1(b)
+//@   modifies stream(b.reader.br), b.remain, b.outer.remain, b.outer.outer.remain, b.outer.outer.outer.remain, b.outer.outer.outer.outer.remain, b.reader.offset, box.flags, r.heic, r.prvw
+//@   ensures remOK(b) && pos(b.reader.br) >= old(pos(b.reader.br))
+//@   loop 0 invariant remOK(b) && pos(b.reader.br) >= old(pos(b.reader.br))
+//@   loop 0 decreases b.remain
+
+
+//@ func (*Reader).readMoovBox
+//@   props C01 C02 C11
+//@   requires wf1(b)
+//@   modifies stream(b.reader.br), b.remain, b.outer.remain, b.outer.outer.remain, b.outer.outer.outer.remain, b.outer.outer.outer.outer.remain, b.reader.offset, r.prvw
+//@   ensures remOK(b) && pos(b.reader.br) >= old(pos(b.reader.br))
+//@   loop 0 invariant remOK(b) && pos(b.reader.br) >= old(pos(b.reader.br))
+//@   loop 0 decreases b.remain
+
+
+//@ func (*Reader).newExifBox
+//@   props C01 C02 C11
+//@   requires wf3(b)
+//@   modifies stream(b.reader.br), b.remain, b.outer.remain, b.outer.outer.remain, b.outer.outer.outer.remain, b.outer.outer.outer.outer.remain, b.reader.offset
+//@   ensures remOK(b) && pos(b.reader.br) >= old(pos(b.reader.br))
+//@   ensures err == nil ==> inner.outer == b && inner.reader == b.reader && inner.remain >= 0
+
+
+//@ func (*Reader).readMdat
+//@   props C01 C02 C11
+//@   requires wf2(b)
+//@   modifies stream(b.reader.br), b.remain, b.outer.remain, b.outer.outer.remain, b.outer.outer.outer.remain, b.outer.outer.outer.outer.remain, b.reader.offset
+//@   ensures remOK(b) && pos(b.reader.br) >= old(pos(b.reader.br))
+
+
+// Callbacks receive a box as their reader. ASSUMED: a callback acts on it only through the box's own Peek/Discard/Read
+// (whose contracts keep the chain intact) - that is what the library's Exif reader, XMP parser and preview renderer do.
+//@ dep callback isobmff.Reader.ExifReader
+//@   names r h -> err
+//@   requires [C11] wf4(as(r, "*isobmff.box"))
+//@   modifies stream(as(r, "*isobmff.box").reader.br), as(r, "*isobmff.box").remain, as(r, "*isobmff.box").outer.remain, as(r, "*isobmff.box").outer.outer.remain, as(r, "*isobmff.box").outer.outer.outer.remain, as(r, "*isobmff.box").outer.outer.outer.outer.remain, as(r, "*isobmff.box").reader.offset
+//@   ensures remOK(as(r, "*isobmff.box")) && pos(as(r, "*isobmff.box").reader.br) >= old(pos(as(r, "*isobmff.box").reader.br))
+
+//@ dep callback isobmff.Reader.XMPReader
+//@   names r -> err
+//@   requires [C11] wf4(as(r, "*isobmff.box"))
+//@   modifies stream(as(r, "*isobmff.box").reader.br), as(r, "*isobmff.box").remain, as(r, "*isobmff.box").outer.remain, as(r, "*isobmff.box").outer.outer.remain, as(r, "*isobmff.box").outer.outer.outer.remain, as(r, "*isobmff.box").outer.outer.outer.outer.remain, as(r, "*isobmff.box").reader.offset
+//@   ensures remOK(as(r, "*isobmff.box")) && pos(as(r, "*isobmff.box").reader.br) >= old(pos(as(r, "*isobmff.box").reader.br))
+
+//@ dep callback isobmff.Reader.PreviewImageReader
+//@   names r h -> err
+//@   requires [C11] wf4(as(r, "*isobmff.box"))
+//@   modifies stream(as(r, "*isobmff.box").reader.br), as(r, "*isobmff.box").remain, as(r, "*isobmff.box").outer.remain, as(r, "*isobmff.box").outer.outer.remain, as(r, "*isobmff.box").outer.outer.outer.remain, as(r, "*isobmff.box").outer.outer.outer.outer.remain, as(r, "*isobmff.box").reader.offset
+//@   ensures remOK(as(r, "*isobmff.box")) && pos(as(r, "*isobmff.box").reader.br) >= old(pos(as(r, "*isobmff.box").reader.br))
+
+//@ func (*Reader).ReadFTYP
+//@   props C01 C02 C11
+//@   entry
+//@   requires r.br != nil
+
+//@ func (*Reader).ReadMetadata
+//@   props C01 C02 C11
+//@   entry
+//@   requires r.br != nil
+
+//@ func NewReader
+//@   props C01
+//@   entry
+//@   requires r != nil
+//@   ensures r0.br != nil
+
+//@ func (*Reader).Close
+//@   props C01
+//@   entry
